@@ -4,6 +4,34 @@ import types
 
 
 _ATOM = (type(None), bool, int, float, str, bytes)
+_MISSING = object()
+
+
+def attrs_of(x):
+    """Instance attributes of an arbitrary object: its __dict__ plus every __slots__ entry along the MRO
+    (so that a class moved to __slots__ is described exactly like before).  None if it has neither."""
+    d = getattr(x, "__dict__", None)
+    out = dict(d) if isinstance(d, dict) else {}
+    has_slots = False
+    for klass in type(x).__mro__:
+        slots = klass.__dict__.get("__slots__", ())
+        if isinstance(slots, str):
+            slots = (slots,)
+        for name in slots:
+            if name in ("__dict__", "__weakref__"):
+                continue
+            has_slots = True
+            v = getattr(x, name, _MISSING)
+            if v is not _MISSING:
+                out[name] = v
+    if d is None and not has_slots:
+        return None
+    return out
+
+
+def _opaque(x):
+    r = repr(x)
+    return r if " at 0x" not in r else "<%s>" % type(x).__qualname__
 
 
 def snap(x, _memo=None, _depth=0):
@@ -46,18 +74,18 @@ def snap(x, _memo=None, _depth=0):
         )
     if t in (set, frozenset):
         return (t.__name__, n) + tuple(sorted((snap(i, _memo, _depth + 1) for i in x), key=repr))
-    d = getattr(x, "__dict__", None)
-    if d is not None:
-        return ("obj", t.__module__, t.__qualname__, n) + tuple(
-            (k, snap(v, _memo, _depth + 1)) for k, v in sorted(d.items())
-        )
     if isinstance(x, (list, tuple)):
         return ("seq", t.__name__, n) + tuple(snap(i, _memo, _depth + 1) for i in x)
     if isinstance(x, dict):
         return ("map", t.__name__, n) + tuple(
             (snap(k, _memo, _depth + 1), snap(v, _memo, _depth + 1)) for k, v in x.items()
         )
-    return ("opaque", t.__module__, t.__qualname__, repr(x))
+    d = attrs_of(x)
+    if d is not None:
+        return ("obj", t.__module__, t.__qualname__, n) + tuple(
+            (k, snap(v, _memo, _depth + 1)) for k, v in sorted(d.items())
+        )
+    return ("opaque", t.__module__, t.__qualname__, _opaque(x))
 
 
 def vsnap(x):
@@ -74,16 +102,16 @@ def vsnap(x):
         return ("type", x.__qualname__)
     if isinstance(x, enum.Enum):
         return ("enum", type(x).__name__, x.name)
-    d = getattr(x, "__dict__", None)
-    if d is not None:
-        return ("obj", t.__qualname__) + tuple((k, vsnap(v)) for k, v in sorted(d.items()))
     if isinstance(x, dict):
         return ("map", t.__name__) + tuple((vsnap(k), vsnap(v)) for k, v in x.items())
     if isinstance(x, (list, tuple)):
         return ("seq", t.__name__) + tuple(vsnap(i) for i in x)
-    if isinstance(x, (types.FunctionType, types.BuiltinFunctionType)):
+    if isinstance(x, (types.FunctionType, types.BuiltinFunctionType, types.MethodType)):
         return ("func", getattr(x, "__qualname__", repr(x)))
-    return ("opaque", t.__qualname__, repr(x))
+    d = attrs_of(x)
+    if d is not None:
+        return ("obj", t.__qualname__) + tuple((k, vsnap(v)) for k, v in sorted(d.items()))
+    return ("opaque", t.__qualname__, _opaque(x))
 
 
 def mutable_ids(x, _acc=None, _depth=0):
@@ -108,10 +136,12 @@ def mutable_ids(x, _acc=None, _depth=0):
         for k, v in x.items():
             mutable_ids(k, _acc, _depth + 1)
             mutable_ids(v, _acc, _depth + 1)
-    elif hasattr(x, "__dict__"):
-        _acc[id(x)] = x
-        for v in vars(x).values():
-            mutable_ids(v, _acc, _depth + 1)
+    else:
+        d = attrs_of(x)
+        if d is not None:
+            _acc[id(x)] = x
+            for v in d.values():
+                mutable_ids(v, _acc, _depth + 1)
     return _acc
 
 
